@@ -41,12 +41,14 @@ HeightKnown(g, h) == \E b \in g.chain : b.h = h
 -----------------------------------------------------------------------------
 (* C01 - every breach of an accepted appointment is answered              *)
 
-\* what the node said about penalty p in this step, given index and memo
-Known(pre, E, p) == IdxHas(pre.rIndex, p) \/ E.orc[p] \in {"mem", "ok", "rej", "res"} \/ MemoHas(pre.memo, p)
-Taken(pre, E, p) == IdxHas(pre.rIndex, p) \/ E.orc[p] \in {"mem", "ok"}
-                    \/ (MemoHas(pre.memo, p) /\ MemoOf(pre.memo, p).v = "ok")
-Refused(pre, E, p) == ~IdxHas(pre.rIndex, p) /\
-                      (E.orc[p] = "rej" \/ (E.orc[p] \notin {"mem", "ok", "res"} /\ MemoHas(pre.memo, p) /\ MemoOf(pre.memo, p).v = "rej"))
+\* what the tower learns about penalty p in this step: the index, then the mempool, then the memoised or fresh verdict
+NodeSaid(pre, E, p) ==
+    IF IdxHas(pre.rIndex, p) \/ E.orc[p] = "mem" THEN "have"
+    ELSE IF MemoHas(pre.memo, p) THEN MemoOf(pre.memo, p).v
+    ELSE E.orc[p]
+Known(pre, E, p) == NodeSaid(pre, E, p) \in {"have", "ok", "rej", "res"}
+Taken(pre, E, p) == NodeSaid(pre, E, p) \in {"have", "ok"}
+Refused(pre, E, p) == NodeSaid(pre, E, p) = "rej"
 
 C01_OneBreach(pre, E, post, a) ==
     LET p == Decrypt(BlobOf(a), a.l)
